@@ -2438,6 +2438,18 @@ def _match_next(data: bytes, keytype: bytes, public: bool = False) -> \
     return None, (), len(data)
 
 
+def _make_key(make_key: Callable[[object], SSHKey],
+              key_params: object) -> SSHKey:
+    """Construct a key, reporting impossible parameters as an import error"""
+
+    try:
+        return make_key(key_params)
+    except KeyImportError:
+        raise
+    except (ValueError, OverflowError):
+        raise KeyImportError('Invalid key parameters') from None
+
+
 def _decode_pkcs1_private(
         pem_name: bytes, key_data: object,
         unsafe_skip_rsa_key_validation: Optional[bool]) -> SSHKey:
@@ -2457,7 +2469,7 @@ def _decode_pkcs1_private(
         key_params = cast(Tuple, key_params) + \
             (unsafe_skip_rsa_key_validation,)
 
-    return handler.make_private(key_params)
+    return _make_key(handler.make_private, key_params)
 
 
 def _decode_pkcs1_public(pem_name: bytes, key_data: object) -> SSHKey:
@@ -2472,7 +2484,7 @@ def _decode_pkcs1_public(pem_name: bytes, key_data: object) -> SSHKey:
     if key_params is None:
         raise KeyImportError(f'Invalid {pem_name.decode("ascii")} public key')
 
-    return handler.make_public(key_params)
+    return _make_key(handler.make_public, key_params)
 
 
 def _decode_pkcs8_private(
@@ -2502,7 +2514,7 @@ def _decode_pkcs8_private(
             key_params = cast(Tuple, key_params) + \
                 (unsafe_skip_rsa_key_validation,)
 
-        return handler.make_private(key_params)
+        return _make_key(handler.make_private, key_params)
     else:
         raise KeyImportError('Invalid PKCS#8 private key')
 
@@ -2528,7 +2540,7 @@ def _decode_pkcs8_public(key_data: object) -> SSHKey:
                        handler.pem_name else 'PKCS#8'
             raise KeyImportError(f'Invalid {key_type} public key')
 
-        return handler.make_public(key_params)
+        return _make_key(handler.make_public, key_params)
     else:
         raise KeyImportError('Invalid PKCS#8 public key')
 
@@ -2626,7 +2638,7 @@ def _decode_openssh_private(
             key_params = cast(Tuple, key_params) + \
                 (unsafe_skip_rsa_key_validation,)
 
-        key = handler.make_private(key_params)
+        key = _make_key(handler.make_private, key_params)
         key.set_comment(comment)
         return key
     except PacketDecodeError:
